@@ -113,7 +113,12 @@ theorem no_mark_identity (code : Nat) (fill : Bool) (s : Str) (h : findFirst isH
   simp [h]
 
 /-- **highlighting off**: `braille_mathml` returns the cleaned braille untouched -/
-theorem off_is_identity (code : Nat) (s : Str) : brailleResult code "Off" s = some (s, 0, s.length) := by
+theorem off_is_identity (code : Nat) (found : Bool) (s : Str) : brailleResult code "Off" found s = some (s, 0, s.length) := by
+  simp [brailleResult]
+
+/-- **no node, no highlight**: with an id that is empty or not in the expression the braille is returned untouched, in every
+style and whatever cells it contains (the matrix row separator ⣍ has dots 7-8 by itself) -/
+theorem unknown_id_is_identity (code : Nat) (style : String) (s : Str) : brailleResult code style false s = some (s, 0, s.length) := by
   simp [brailleResult]
 
 /-! ## highlighting touches nothing but dots 7 and 8 -/
